@@ -744,8 +744,85 @@ func bytesEq(a, b []byte) bool {
 }
 
 // C11: completion under every traffic pattern, cancellation and Close
+// helperCtxEnd: the lease helpers are calls too - a context that ends while a helper waits ends the helper, whichever
+// of its exchanges is in flight. The scripted server answers the SOLICIT / DISCOVER (with an ADVERTISE / OFFER) and then
+// falls silent; the context is cancelled 50 ms after the second message (REQUEST) went out. Returns when the helper
+// returned, when the context was cancelled, and the helper's error.
+func helperCtxEnd(v6 bool, rapid bool) (end, cancelled time.Duration, err error) {
+	bubbleNote = fmt.Sprintf("lease helper v6=%v rapid=%v, server silent after its first answer, context cancelled during the second exchange", v6, rapid)
+	runBubble(func(t *testing.T) {
+		conn := newLabConn()
+		ctx, cancel := context.WithCancel(context.Background())
+		defer cancel()
+		nw := 0
+		conn.onWrite = func(b []byte) {
+			nw++
+			if nw == 1 {
+				var rep []byte
+				if v6 {
+					if m, e := dhcpv6.MessageFromBytes(b); e == nil {
+						adv, _ := dhcpv6.NewAdvertiseFromSolicit(m, dhcpv6.WithServerID(&dhcpv6.DUIDLL{HWType: 1, LinkLayerAddr: net.HardwareAddr{2, 0, 0, 0, 0, 9}}))
+						if ia := m.Options.OneIANA(); ia != nil {
+							adv.AddOption(ia)
+						}
+						rep = adv.ToBytes()
+					}
+				} else if m, e := dhcpv4.FromBytes(b); e == nil {
+					off, _ := dhcpv4.NewReplyFromRequest(m, dhcpv4.WithMessageType(dhcpv4.MessageTypeOffer), dhcpv4.WithYourIP(net.IP{192, 168, 0, 9}), dhcpv4.WithOption(dhcpv4.OptServerIdentifier(net.IP{10, 0, 0, 1})))
+					rep = off.ToBytes()
+				}
+				if rep != nil {
+					conn.inject(time.Since(conn.start)+10*time.Millisecond, rep)
+				}
+			}
+			if nw == 2 {
+				go func() {
+					select {
+					case <-time.After(50 * time.Millisecond):
+						cancelled = time.Since(conn.start)
+						cancel()
+					case <-conn.closed:
+					}
+				}()
+			}
+		}
+		if v6 {
+			c, _ := nclient6.NewWithConn(conn, labHW, nclient6.WithTimeout(2*time.Second), nclient6.WithRetry(2))
+			if rapid {
+				_, err = c.RapidSolicit(ctx)
+			} else {
+				var adv *dhcpv6.Message
+				if adv, err = c.Solicit(ctx); err == nil {
+					_, err = c.Request(ctx, adv)
+				}
+			}
+			end = time.Since(conn.start)
+			c.Close()
+		} else {
+			c, _ := nclient4.NewWithConn(conn, labHW, nclient4.WithTimeout(2*time.Second), nclient4.WithRetry(2))
+			_, err = c.Request(ctx)
+			end = time.Since(conn.start)
+			c.Close()
+		}
+		synctest.Wait()
+	})
+	return
+}
+
 func genC11(r *Run) {
 	evals := 0
+	for _, mode := range [][2]bool{{true, true}, {true, false}, {false, false}} {
+		end, cancelled, err := helperCtxEnd(mode[0], mode[1])
+		evals++
+		cs := fmt.Sprintf("lease helper (v6=%v, RapidSolicit=%v): the server answers the first message and then nothing; the context is cancelled 50 ms after the REQUEST went out (T = 2 s, 2 tries)", mode[0], mode[1])
+		if cancelled == 0 {
+			r.Fail("c11-helper-context-end", cs, fmt.Sprintf("the second exchange never started (helper returned %v at %v)", err, end))
+			continue
+		}
+		if end != cancelled || !errors.Is(err, context.Canceled) {
+			r.Fail("c11-helper-context-end", cs, fmt.Sprintf("context cancelled at %v, the helper returned at %v with %v", cancelled, end, err))
+		}
+	}
 	// a call ends only for one of its own reasons, also when another call on the same id has just ended: call B takes
 	// the id of call A while A returns with a full buffer (B started before or after A's return); B must still be
 	// waiting when its answer arrives and end with that answer
